@@ -48,7 +48,7 @@ def run(c):
     okg, _ = c.go_build()
     cov = {"rule": "EMIT: every history of <= L operations over {Add schema A, Add schema B, Resolve, Reset, FlushCollector} (L=3 quick, 5 thorough) "
                    "on each of the 5 compressing collectors (chunk size 1/2) with SetMetadata inserted at every position, two SetMetadata "
-                   "(different document / same document) at every pair of positions (histories <= 2 / <= 4), a final Resolve; sampled longer "
+                   "(different document / same document) at every pair of positions (histories <= 2 / <= 3), a final Resolve; sampled longer "
                    "ones; random long histories over all operations incl. unreadable Adds, type-changing Adds, Info, wrappers and writer "
                    "faults; each history is followed by its twin without the SetMetadata operations. READ: the stream of every history, "
                    "every composition of <= 3 (5 thorough) pieces from {chunk, two chunks, metadata+chunk, stray type-0 document in every numeric "
@@ -101,8 +101,13 @@ def run(c):
         c.violation({"kind": "proof or correspondence no longer checks; no input violating C11 was found", "broken": c.broken}, no_input=True)
     if c.tier == "thorough" and pr["ok"]:
         okc, outc = c.coqchk(PROPS)
+        if not okc and "Inconsistent assumptions" in outc:
+            # the .vo closure was rebuilt by someone else while the cases ran: rebuild it and check again
+            c.coq_build([PROPS])
+            okc, outc = c.coqchk(PROPS)
         cov["coqchk"] = {"ok": okc, "tail": outc[-1200:]}
         if not okc:
+            c.broken.append("coqchk rejected the compiled development: %s" % outc[-600:])
             c.violation({"kind": "coqchk rejected the compiled development", "log": outc}, no_input=True)
     c.finish(cov, assumptions=[
         "zlib is a parameter of the model; no property of it is needed for C11. The harness re-inflates the implementation's streams with "
